@@ -303,12 +303,12 @@ class IniConfigParser(ConfigFileParser):
                 continue
             for k,value in config[section].items():
                 # value is already strip by configparser
+                if self.known_keys is not None and k not in self.known_keys:
+                    result[k] = value
+                    continue
                 if not value and self.split_ml_text_to_list:
                     # ignores empty values when split_ml_text_to_list is True
                     # because we can't differenciate empty list and empty string.
-                    continue
-                if self.known_keys is not None and k not in self.known_keys:
-                    result[k] = value
                     continue
                 # evaluate lists
                 if value.startswith('[') and value.endswith(']'):
